@@ -13,7 +13,7 @@ claimed = {
  "C04": "Theorems C04_copy / refuse_over / refuse_after / direct / total / finished: min-of-three copy, refusal without side effect, 'accounted <= N' invariant over all op sequences, finished only at exactly N and always once N is reached and signalled.",
  "C05": "Theorems C05_exact (H or more => exactly H's status/version/fields, consumes |H|), C05_prefix (every strict prefix => need more data), C05_limit (more fields than the limit => too-many-headers), at parser level for every limit N; C05_call_prefix_partial at Call level with the partial-redirect fallback present, for every head that is not a 3xx with a Location field (the excluded region is known finding D10, witnessed and replayed); C05_call_prefix_nohack for the code without the fallback.",
  "C06": "Theorem C06 (body mode = the HTTP rules, for every method, status : Nat, version, header list), C06_bad_content_length, C06_successor (state after the head).",
- "C07": "Theorem C07 (from V2.C07_schedule): for every valid coding (grammar V2.Rem), every arrival/window schedule, output size and boundary-stop setting, the reads never fail, output is a prefix of the chunk data, only coding bytes are consumed, ended iff the final CRLF was consumed; tied to CallSt.read by read_chunked_eq. Partial: 'no read returns data of two chunks with boundary stop' and liveness are decided by the correspondence and the oracle only (no theorem yet).",
+ "C07": "Theorem C07 (from V2.C07_schedule): for every valid coding (grammar V2.Rem), every arrival/window schedule, output size and boundary-stop setting, the reads never fail, output is a prefix of the chunk data, only coding bytes are consumed, ended iff the final CRLF was consumed; tied to CallSt.read by read_chunked_eq. C07_boundary: with boundary stopping a single read returns only data of the current chunk; C07_progress: offering the whole remaining coding with room for a byte always makes progress until the body has ended.",
  "C08": "Theorems C08_len (every schedule delivers a verbatim prefix of the next N bytes, consumed = delivered <= N, complete iff N delivered), C08_close_step, C08_close_can_proceed, C08_close_marks, C08_reasons_kept.",
  "C09": "Theorem C09_history (from wf_step: every operation of every typestate on a well-formed flow returns without panic and leaves a well-formed flow; lifted by induction to every call history with arbitrary bytes and buffer sizes), C09_ready (advance succeeds iff the readiness query is true), C09_edges (successor = documented graph), C09_follow_wf; D11 (second as_new_flow) is a recorded finding with an evaluated witness.",
  "C10": "Theorems C10_verdict, C10_initial, C10_step (a reason is recorded after a step iff it was before or the step is exactly one of the three events: non-100 while awaiting, returned response with Connection: close, close-delimited body entered), C10_cap.",
